@@ -1,6 +1,7 @@
 """C15 — Styles and borders applied through the API read back equal, now and after reload."""
 from __future__ import annotations
 
+import json
 import os
 import tempfile
 import warnings
@@ -542,7 +543,89 @@ def style_case(sub: Ctx, seed: int, h: int):
             if got != w:
                 sub.violation("restyle-reloaded-differs",
                               f"after restyling, save and reopen: cell ({r},{c}) {diff_attrs(got, w)}", where2)
+    inplace_phase(sub, rng, doc2, where)
     return [(line, reply)]
+
+
+def inplace_phase(sub: Ctx, rng, rdoc, where):
+    """third phase, on the REOPENED document of the case: the Style read from ONE cell of the file is changed in place
+    (cell.style.<attribute> = value).  That cell shows the new value; every other cell - in particular the cells that were
+    stored with the very same style entries - keeps its style, on the open document and after save + reopen."""
+    from numbers_parser import RGB, Alignment, Document
+    fd, path = tempfile.mkstemp(suffix=".numbers")
+    os.close(fd)
+    try:
+        rdoc.save(path)
+        probe_doc, rdoc = Document(path), Document(path)   # two fresh readings of one file: one to look at, one to change
+    finally:
+        os.unlink(path)
+    tb = rdoc.sheets[0].tables[0]
+    nr, nc = tb.num_rows, tb.num_cols
+    order = [(r, c) for r in range(nr) for c in range(nc)]
+    probe = {rc: cell_style_or_exc(Document_cell(probe_doc, rc)) for rc in order}
+    read_first = rng.random() < 0.5
+    if read_first:   # the styles of the document that is about to be changed are read before the change ...
+        for rc in order:
+            cell_style_or_exc(tb.cell(*rc))
+    groups: dict = {}
+    for rc, t in probe.items():
+        if not isinstance(t, str):
+            groups.setdefault(json.dumps(t, default=str), []).append(rc)
+    shared = [g for g in groups.values() if len(g) > 1]
+    if not shared:
+        return
+    target = rng.choice(rng.choice(shared))
+    st = tb.cell(*target).style
+    if st.bg_image is not None:
+        return
+    a = rng.choice(["bg_color", "text_wrap", "valign", "text_inset", "bold", "font_size"])
+    cur_h, cur_v = st.alignment.horizontal.name.lower(), st.alignment.vertical.name.lower()
+    if a == "bg_color":
+        st.bg_color = RGB(rng.randrange(256), rng.randrange(256), rng.randrange(256))
+    elif a == "text_wrap":
+        st.text_wrap = not st.text_wrap
+    elif a == "valign":
+        st.alignment = Alignment(cur_h, rng.choice([v for v in VERT if v != cur_v]))
+    elif a == "text_inset":
+        st.text_inset = rng.choice([x for x in F32 if x != st.text_inset])
+    elif a == "bold":
+        st.bold = not st.bold
+    else:
+        st.font_size = rng.choice([x for x in SIZES if x != st.font_size])
+    expected = dict(probe)
+    expected[target] = style_tuple(st)
+    where3 = dict(where, third_phase={"in_place_change_of_cell": list(target), "attribute": a,
+                                      "styles_read_before_the_change": read_first})
+    # the changed cell itself is outside the statement (styles are created with add_style and applied with
+    # set_cell_style / write; an in-place change of a text-level attribute of a style read from a cell is not saved -
+    # notes/C15.md); what the statement does say is that cells that were not styled keep their previous style
+    others = [rc for rc in order if rc != target]
+    for rc in others:
+        got = cell_style_or_exc(tb.cell(*rc))
+        if got != expected[rc]:
+            sub.violation("unstyled-cell-style-changed",
+                          f"reopened document, cell.style.{a} changed in place on cell {target}: cell {rc} "
+                          f"{diff_attrs(got, expected[rc])}", where3)
+    fd, path = tempfile.mkstemp(suffix=".numbers")
+    os.close(fd)
+    try:
+        rdoc.save(path)
+        doc4 = Document(path)
+    finally:
+        os.unlink(path)
+    tb4 = doc4.sheets[0].tables[0]
+    sub.count("in-place change of the style read from one cell of a reopened document: that cell changes, every other cell "
+              "(also those stored with the same style entries) keeps its style, open and after save + reopen", 1)
+    for rc in others:
+        got = cell_style_or_exc(tb4.cell(*rc))
+        if got != expected[rc]:
+            sub.violation("unstyled-cell-style-changed",
+                          f"after an in-place change of cell.style.{a} on cell {target} of the reopened document, save and "
+                          f"reopen: cell {rc} {diff_attrs(got, expected[rc])}", where3)
+
+
+def Document_cell(doc, rc):
+    return doc.sheets[0].tables[0].cell(*rc)
 
 
 def diff_attrs(got, want):
